@@ -247,29 +247,7 @@ def run(ck, F, E):
                    "chomp_next_token no longer reports (saved start)..(cursor at return)", cn.span)
 
     # ---- (4) error positions
-    n_err = 0
-    for body in F.bodies.values():
-        if body.crate != "abasic_core" or "tokenizer::Tokenizer" not in body.path:
-            continue
-        for variant in ("IllegalCharacter", "UnterminatedStringLiteral"):
-            for b, i, pl, rv, sp in aggregates(body, "syntax_error::TokenizationError", variant):
-                n_err += 1
-                e = strip_expr(body.expr(rv["ops"][0]))
-                ok = e[0] == "place" and e[2] and e[2][-1] == (TOK, "index")
-                ck.require(ok, "C13:ERRPOS:%s" % variant, "error position", "%s(self.index)" % variant,
-                           "%s carries %s instead of the cursor" % (variant, show(e)), sp)
-        for b, i, pl, rv, sp in aggregates(body, "syntax_error::TokenizationError", "InvalidNumber"):
-            n_err += 1
-            e = strip_expr(body.expr(rv["ops"][0]))
-            ok = False
-            if e[0] == "agg" and str(e[1]).endswith("Range"):
-                st = strip_expr(e[3][0])
-                en = split_add(e[3][1])
-                ok = st[0] == "place" and st[2] and st[2][-1] == (TOK, "index") and en is not None and \
-                    classify_advance(F, body, en) is not None
-            ck.require(ok, "C13:ERRPOS:InvalidNumber", "error position", "InvalidNumber(index..index+pos)",
-                       "InvalidNumber carries %s" % show(e), sp)
-    ck.floor("C13.tokenization error sites", n_err, 3)
+    errpos_rules(ck, F, "C13")
     range_rule(ck, F, "C13")
 
     # ---- (5) sibling collectors
@@ -290,6 +268,33 @@ def run(ck, F, E):
                    "both collectors are one loop: next, `?`, push (tokens%s)" % "/ranges",
                    "remaining_tokens and remaining_tokens_and_ranges no longer perform the same iteration: %s vs %s" % (sa, sb),
                    a.span)
+
+
+def errpos_rules(ck, F, P):
+    """Tokenization error positions are cursor values (shared with C05)."""
+    n_err = 0
+    for body in F.bodies.values():
+        if body.crate != "abasic_core" or "tokenizer::Tokenizer" not in body.path:
+            continue
+        for variant in ("IllegalCharacter", "UnterminatedStringLiteral"):
+            for b, i, pl, rv, sp in aggregates(body, "syntax_error::TokenizationError", variant):
+                n_err += 1
+                e = strip_expr(body.expr(rv["ops"][0]))
+                ok = e[0] == "place" and e[2] and e[2][-1] == (TOK, "index")
+                ck.require(ok, "%s:ERRPOS:%s" % (P, variant), "error position", "%s(self.index)" % variant,
+                           "%s carries %s instead of the cursor" % (variant, show(e)), sp)
+        for b, i, pl, rv, sp in aggregates(body, "syntax_error::TokenizationError", "InvalidNumber"):
+            n_err += 1
+            e = strip_expr(body.expr(rv["ops"][0]))
+            ok = False
+            if e[0] == "agg" and str(e[1]).endswith("Range"):
+                st = strip_expr(e[3][0])
+                en = split_add(e[3][1])
+                ok = st[0] == "place" and st[2] and st[2][-1] == (TOK, "index") and en is not None and \
+                    classify_advance(F, body, en) is not None
+            ck.require(ok, "%s:ERRPOS:InvalidNumber" % P, "error position", "InvalidNumber(index..index+pos)",
+                       "InvalidNumber carries %s" % show(e), sp)
+    ck.floor("%s.tokenization error sites" % P, n_err, 3)
 
 
 def _saved_index(body, loc, use_bb, depth):
